@@ -393,6 +393,36 @@ pub async fn run(ctx: &Ctx) {
             }
         })));
     }
+    // knob eager = 1: per side one more sender that does not wait for the state notification but polls send() every
+    // 500 virtual microseconds from the start (an application thread retrying until the transport accepts data); together
+    // with the preemption points inside the handshake's completion it reaches the instants at which the transport
+    // already reports Connected but has not finished switching its record sequencing
+    if plan.knob("eager", 0) == 1 {
+        for side in 0..2usize {
+            let d = dt[side].clone();
+            let sh = ctx.sh.clone();
+            let accepted = accepted.clone();
+            let ps: Vec<Vec<u8>> = (0..3).map(|k| payload(side, 9000 + k, 40 + 10 * k as usize)).collect();
+            sent[side].extend(ps.iter().cloned());
+            senders.push(tokio::spawn(vh::wrap_task(async move {
+                let t_end = tokio::time::Instant::now() + Duration::from_secs(20);
+                for p in ps {
+                    loop {
+                        let r = d.send(Bytes::from(p.clone())).await;
+                        if r.is_ok() {
+                            sh.lock().unwrap().event(&format!("api {} eager send ok", names[side]), &format!("len={}", p.len()));
+                            accepted.lock().unwrap()[side].push(p);
+                            break;
+                        }
+                        if tokio::time::Instant::now() > t_end || matches!(dtls_state_name(&d), "Failed" | "Closed") {
+                            return;
+                        }
+                        tokio::time::sleep(Duration::from_micros(500)).await;
+                    }
+                }
+            })));
+        }
+    }
     // injections and closes, in plan order
     let m_addr = addr("M", 6666);
     let mut closes = 0;
@@ -847,6 +877,18 @@ pub fn generate(prop: &str, seed: u64, idx: u64, tier: Tier) -> Plan {
                 }
             }
             p.heal_at_ms = 60_000;
+        }
+    }
+    // thread-style interleavings at the end of the handshake (drawn from their own stream, so that every other choice of
+    // the plan stays what it was): in 15 % of the C03 / C11 runs each side has an eager sender (polls send() from the
+    // start) and the handshake task is descheduled at rustrtc's named preemption points for 0.6 / 2 / 20 virtual ms
+    if prop == "C03" || prop == "C11" {
+        let mut rs = Rng::new(mix(mix(seed, idx), 0x7072_6565_6d70_74));
+        if rs.chance(15) {
+            p.knobs.insert("eager".into(), 1);
+            p.knobs.insert("preempt_pct".into(), *rs.pick(&[50i64, 100]));
+            p.knobs.insert("preempt_us".into(), *rs.pick(&[600i64, 2000, 20_000]));
+            p.knobs.insert("preempt_only".into(), rs.below(3) as i64);
         }
     }
     p
